@@ -144,6 +144,16 @@ func checkMaskPair(a, b *bset) string {
 	if wf.Matches(&mb) != wantW {
 		return fmt.Sprintf("Without filter Matches=%v, definition says %v", wf.Matches(&mb), wantW)
 	}
+	// overlapping include and exclude: unsatisfiable, whatever the component set
+	for i := 0; i < n; i++ {
+		if a[i] {
+			of := ma.Without(AllIDs()[i])
+			if of.Matches(&mb) || of.Matches(&ma) {
+				return fmt.Sprintf("filter including and excluding component %d matches a component set", i)
+			}
+			break
+		}
+	}
 	ef := ma.Exclusive()
 	if ef.Matches(&mb) != (*a == *b) {
 		return fmt.Sprintf("Exclusive filter Matches=%v, sets equal=%v", ef.Matches(&mb), *a == *b)
